@@ -45,6 +45,31 @@ pub fn gen(seed: u64, tier: &str) -> Vec<String> {
     for p in ["", "/", "..", "a/..", ".", "./a", "a/.", "//", "a//b", "/a", "/a/b", "a/", "a/b/", " /x", "x/ ", " "] {
         paths.push(p.to_string());
     }
+    // component and path lengths around 2^8 and 2^16 (bytes and characters): pure string functions have no
+    // business with NAME_MAX / PATH_MAX / u8 / u16 lengths
+    for n in [254usize, 255, 256, 257, 300, 1000, 4096, 65535, 65536, 65537] {
+        let ascii: String = (0..n).map(|i| (b'a' + (i % 26) as u8) as char).collect();
+        if n >= 65535 && tier != "thorough" {
+            // quick: one path at 2^16 (the neighbours and the other shapes in thorough)
+            if n == 65536 {
+                paths.push(format!("m/{}", ascii));
+            }
+            continue;
+        }
+        paths.push(ascii.clone());
+        paths.push(format!("m/{}", ascii));
+        paths.push(format!("{}/x.bin", ascii));
+        if n <= 4096 {
+            let kana: String = (0..n).map(|i| char::from_u32(0x30A1 + (i % 80) as u32).unwrap()).collect();
+            paths.push(format!("d/{}", kana)); // n characters = 3n bytes
+            let k3: String = kana.chars().take((n + 2) / 3).collect(); // about n bytes
+            paths.push(k3.clone());
+            paths.push(format!("{}.bin.lz", k3));
+        }
+    }
+    for depth in [64usize, 300, 5000] {
+        paths.push(vec!["d"; depth].join("/"));
+    }
     // exhaustive depth 1..2 over the component alphabet, sampled depth 3..4
     let plain: Vec<&str> = COMPS.iter().cloned().filter(|c| *c != "..").collect();
     for (i, a) in plain.iter().enumerate() {
@@ -76,7 +101,7 @@ pub fn gen(seed: u64, tier: &str) -> Vec<String> {
         for l in LOCALIZERS.iter() {
             for g in LANGS.iter() {
                 // quick: all 48 pairs for the first 200 paths, then a sampled pair
-                if tier != "thorough" && n >= 200 * 48 && !rng.chance(1, 8) {
+                if tier != "thorough" && n >= 260 * 48 && !rng.chance(1, 8) {
                     continue;
                 }
                 lines.push(format!("c14.{:06} loc {} {} {}", n, l, g, hexs(p)));
